@@ -24,7 +24,9 @@ RULE = ("base: 1-8 distinct atoms with neutron data (ions, isotopes, D/T, energy
         "density x k (k in 1e-9..1e9; SLDs and cross sections x k, penetration / k, rel 1e-12); all counts x k as a bracketed "
         "string (k = 1e-12..1e12 in the grammar's decimals) and as a dict (k in 1e-12..1e12) (unchanged, rel 1e-11); a regrouped variant = permutation, split counts, 1-3 nesting "
         "levels of implicit/explicit groups with multipliers, same multiset verified in Fractions (unchanged, rel 1e-11); "
-        "dict route vs string route; the density given as natural_density= must equal density = rho_n x sum n(m - q m_e) / "
+        "dict route vs string route; before the repeated / scaled / regrouped evaluations the caller reads .atoms of a "
+        "Formula of the same text (and of the object handed in) and edits the returned dict in place (move, change, "
+        "clear): a new .atoms read and every later evaluation must be unaffected (and follow the reference); the density given as natural_density= must equal density = rho_n x sum n(m - q m_e) / "
         "sum n(m_natural - q m_e) computed here from the table masses, and count scaling (string, dict), regrouping, "
         "density scaling, the '@<d>n' suffix and a Formula with natural_density assigned must all agree with it (ions and "
         "isotope ions with counts != 1 are in the atom pool); a Formula object with another preset density called with natural_density= (vs the "
@@ -152,6 +154,26 @@ def pick(res, i):
     return dict((o, float(np.asarray(res[o], dtype=float).reshape(-1)[i])) for o in OUTPUTS)
 
 
+def edit_atoms(f, how, case, what):
+    """Read f.atoms, check a second read gives an equal dict, then edit the FIRST dict in place the
+    way a caller who owns it may (the docstring says referencing the attribute computes the counts);
+    a third read must still give the original composition."""
+    a1 = f.atoms
+    want = dict(a1)
+    keys = list(a1)
+    if keys:
+        if how % 3 == 0:
+            a1[keys[-1]] = a1.pop(keys[0]) * 3 + 1
+        elif how % 3 == 1:
+            a1[keys[0]] = a1[keys[0]] * 7.5 + 2
+        else:
+            a1.clear()
+    a3 = f.atoms
+    if not (a3 == want and all(x is y for x, y in zip(sorted(a3, key=id), sorted(want, key=id)))):
+        raise Violation("c04:atoms-edit:atoms-changed", "%s: after the caller edited the dict returned by .atoms, "
+                        "a new read of .atoms gives %r instead of %r" % (what, a3, want), case)
+
+
 def check_relations(ctx, v):
     E = ng.env()
     np, pt, R, pool = E["np"], E["pt"], E["ref"], E["pool"]
@@ -178,6 +200,19 @@ def check_relations(ctx, v):
     base = _scat(s0, rho, wavelength=lam)
     nonneg(base, case, s0)
 
+    # the caller reads .atoms of a Formula of the same text (and of the object it hands in) and edits the
+    # returned dict in place; the same evaluation again must give the same numbers and follow the reference
+    how = v["r"][0]
+    f0 = pt.formula(s0)
+    edit_atoms(f0, how, case, "formula(%r)" % s0)
+    edit_atoms(pt.formula(s0), how + 1, case, "a second formula(%r)" % s0)
+    again = _scat(s0, rho, wavelength=lam)
+    same("c04:atoms-edit:string", base, again, floors, 1e-14, case, "%s evaluated again after an .atoms dict was edited" % s0)
+    again = _scat(f0, rho, wavelength=lam)
+    same("c04:atoms-edit:formula-object", base, again, floors, 1e-14, case,
+         "Formula(%s) evaluated after its .atoms dict was edited" % s0)
+    ng.compare_outputs("c04:atoms-edit:reference", again, comp, rho, [lam], case, "edep" if edep else "ordinary")
+
     # density x k
     k = v["kd"]
     r1 = _scat(s0, rho * k, wavelength=lam)
@@ -190,6 +225,7 @@ def check_relations(ctx, v):
     kc = v["kc"]
     t2 = {"g": [["e", tree["g"], tree["s"], kc, ["", "", "", ""]]], "s": [], "d": None}
     s2 = fa.render(t2)
+    edit_atoms(pt.formula(s2), how + 2, case, "formula(%r)" % s2)
     r2 = _scat(s2, rho, wavelength=lam)
     same("c04:count-scale:string", base, r2, floors, 1e-11, case, "%s vs %s" % (s0, s2))
     kf = v["kf"]
@@ -198,6 +234,7 @@ def check_relations(ctx, v):
     same("c04:count-scale:dict", base, r3, floors, 1e-11, case, "%s vs dict x %r" % (s0, kf))
 
     # regrouped / permuted
+    edit_atoms(pt.formula(s_var), how, case, "formula(%r)" % s_var)
     r4 = _scat(s_var, rho, wavelength=lam)
     nonneg(r4, case, s_var)
     same("c04:regroup", base, r4, floors, 1e-11, case, "%s vs %s" % (s0, s_var))
@@ -276,12 +313,15 @@ def check_relations(ctx, v):
     for o in OUTPUTS:
         ng.check_shape("c04:vector", o, rv[o], (len(vec),), case)
     nonneg(rv, case, "vector call")
+    keep = ng.Retained("c04", case, foreign=[(how, arg)])
+    keep.add("the vector call", [(o, rv[o]) for o in OUTPUTS])
     # the same compound and the SAME wavelength/energy object again, straight away, at density x k:
     # a result must not depend on the call before it
     rv2 = _scat(target, rho * k, **{how: arg})
     for o in OUTPUTS:
         ng.check_shape("c04:vector", o, rv2[o], (len(vec),), case)
     nonneg(rv2, case, "repeated vector call")
+    keep.add("the repeated vector call", [(o, rv2[o]) for o in OUTPUTS])
     for i in range(len(vec)):
         fl = R.scattering(comp, rho, vlam[i], E["axis"])[1]
         same("c04:repeat:density-scale", rv, pick(rv2, i), fl, 1e-12, case,
@@ -305,6 +345,8 @@ def check_relations(ctx, v):
             ng.check_shape("c04:vector", o, ra[o], (len(vec),), case)
             ng.check_shape("c04:vector", o, rb[o], (len(vec),), case)
         nonneg(ra, case, "vector call after the wavelengths changed in place")
+        keep.add("the call after the in-place change", [(o, ra[o]) for o in OUTPUTS])
+        keep.add("its repeat at density x k", [(o, rb[o]) for o in OUTPUTS])
         for i in range(min(len(vec2), 4)):
             x = float(vals[i])
             rs = _scat(target, rho, **{how: x})
@@ -313,6 +355,7 @@ def check_relations(ctx, v):
                  "%s[%d] after the caller overwrote the vector in place vs scalar %s=%r" % (how, i, how, x), index=i)
             same("c04:repeat:density-scale", ra, pick(rb, i), fl, 1e-12, case,
                  "overwritten vector repeated at density x %r, entry %d" % (k, i), fac, index=i)
+    keep.verify("at the end of the relations")
 
 
 # ----------------------------------------------------------------------
